@@ -44,8 +44,12 @@ fn op_val(o: &(EditOperation, usize, usize)) -> Val {
 /// main alphabet, weighted: a, b, ' ' 2/9 each; ä, e+U+0301 and NBSP (a second, multi-byte
 /// whitespace, so that whitespace-for-whitespace replacement is exercised) 1/9 each
 const MAIN: &[&str] = &["a", "b", "a", "b", " ", " ", "ä", "e\u{301}", "\u{a0}"];
+/// the second line: code points whose clustering depends on the neighbours (Regional_Indicator, Hangul L / V,
+/// Prepend, ZWJ, Indic consonant and virama, an emoji) — the cluster lists are compared with the model's own
+/// segmenter (`uax29_agree`), so these exercise the segmenter correspondence on edit-distance inputs
 const EDGE: &[&str] = &[
     "a", "b", " ", "c", "\t", "\u{a0}", "\r\n", " \u{301}", "\u{301}", "\u{3000}", "ä", "e\u{301}", "e", "\n",
+    "🇩", "\u{1100}", "\u{1161}", "\u{600}", "\u{200d}", "क", "\u{94d}", "👩",
 ];
 
 fn unit(rng: &mut Rng, edge: bool) -> &'static str {
